@@ -41,6 +41,8 @@ type PtrV struct {
 	Key  string // heap key base
 	Ref  *Term  // object ref / array id / cell ref
 	Idx  *Term  // elem: absolute index
+	Off  *Term  // elem: offset of the slice window
+	Rel  *Term  // elem: index relative to the window (Idx == Off + Rel)
 	T    types.Type
 }
 
@@ -455,7 +457,7 @@ func (x *Exec) loadLoc(s *State, p PtrV) Val {
 		case "field", "cell":
 			ts[i] = tSelect(x.heapGet(s, p.Key+c.Suffix, arrSort(c.Sort)), p.Ref)
 		case "elem":
-			ts[i] = tSelect(tSelect(x.heapGet(s, p.Key+c.Suffix, arrSort(arrSort(c.Sort))), p.Ref), p.Idx)
+			ts[i] = x.elemRead(tSelect(x.heapGet(s, p.Key+c.Suffix, arrSort(arrSort(c.Sort))), p.Ref), p, c.Sort)
 		default:
 			oos("load through %s pointer", p.Kind)
 		}
@@ -660,7 +662,7 @@ func (x *Exec) elemPtr(sv SliceV, elem types.Type, k *Term) Val {
 	if _, ok := isStruct(elem); ok {
 		return tAdd(sv.Arr, tMul(abs, mkInt(structSize(elem))))
 	}
-	return PtrV{Kind: "elem", Key: elemKey(elem), Ref: sv.Arr, Idx: abs, T: elem}
+	return PtrV{Kind: "elem", Key: elemKey(elem), Ref: sv.Arr, Idx: abs, Off: sv.Off, Rel: k, T: elem}
 }
 
 // ---------------------------------------------------------------------------
@@ -677,11 +679,21 @@ func (x *Exec) site(cls, text string) string {
 
 func (x *Exec) oblige(s *State, cls, site string, pos token.Pos, cond *Term, inputs []*Term) {
 	name := x.Prefix + "/" + cls + "/" + x.site(cls, site)
-	goal := tImp(s.Guard, cond)
-	o := &Obligation{Name: name, Class: cls, Props: x.Props, Goal: goal, Site: x.W.pos(pos), Inputs: inputs}
-	x.Sc.AddObligation(o)
-	// after the check, the condition may be assumed on this path
-	x.Sc.Assert(goal)
+	parts := []*Term{cond}
+	if cond.op == "and" && (strings.HasPrefix(cls, "pre:") || strings.HasPrefix(cls, "inv-")) {
+		parts = cond.args
+	}
+	for i, c := range parts {
+		n := name
+		if len(parts) > 1 {
+			n = fmt.Sprintf("%s&%d", name, i)
+		}
+		goal := tImp(s.Guard, c)
+		o := &Obligation{Name: n, Class: cls, Props: x.Props, Goal: goal, Site: x.W.pos(pos), Inputs: inputs}
+		x.Sc.AddObligation(o)
+		// after the check, the condition may be assumed on this path
+		x.Sc.Assert(goal)
+	}
 }
 
 func (x *Exec) safety(s *State, cls string, pos token.Pos, instr ssa.Instruction, cond *Term) {
@@ -790,4 +802,21 @@ func describeVal(v Val) string {
 		return "{" + strings.Join(parts, ",") + "}"
 	}
 	return fmt.Sprintf("%T", v)
+}
+
+// elemRead reads element (off+rel) of an inner array through the uninterpreted accessor at.<sort>,
+// defined by the axiom at(A, o, i) = A[o+i]. Keeping the addition out of the select index lets
+// quantified contracts (sorted, frames over elements) be instantiated by E-matching.
+func (x *Exec) elemRead(inner *Term, p PtrV, sort string) *Term {
+	if p.Off == nil || p.Rel == nil || (p.Off.isInt() && p.Off.ival.Sign() == 0) {
+		return tSelect(inner, p.Idx)
+	}
+	name := "at." + sort
+	if _, ok := x.Sc.decls[name]; !ok {
+		x.Sc.DeclareFun(name, []string{arrSort(sort), SInt, SInt}, sort)
+		a, o, i := mkConst("at_a", arrSort(sort)), mkConst("at_o", SInt), mkConst("at_i", SInt)
+		app := mkApp(name, sort, a, o, i)
+		x.Sc.Assert(tForallPat([]*Term{a, o, i}, mkApp("=", SBool, app, mkApp("select", sort, a, mkApp("+", SInt, o, i))), app))
+	}
+	return mkApp(name, sort, inner, p.Off, p.Rel)
 }
